@@ -68,7 +68,7 @@ func buildSMT(rep *FuncReport, o *Obligation, withModel bool) string {
 		}
 		if rep.D != nil && rep.Reveal != nil {
 			// definitions of opaque spec functions are hidden unless revealed
-			if fn, ok := rep.D.opaqueAxiom[l]; ok && !rep.Reveal[fn] && !rep.Reveal["*"] && !(o.Kind == "assert" && rep.Reveal["assert:"+fn]) {
+			if fn, ok := rep.D.opaqueAxiom[l]; ok && !rep.Reveal[fn] && !rep.Reveal["*"] && !((o.Kind == "assert" || strings.HasSuffix(o.Name, ".entry")) && rep.Reveal["assert:"+fn]) {
 				continue
 			}
 		}
@@ -288,7 +288,7 @@ func SolveAll(reps []*FuncReport, dir string, timeoutS, seed, need, workers int)
 			retry = append(retry, j)
 		}
 	}
-	if len(retry) == 0 || len(retry) > 6 {
+	if len(retry) == 0 || len(retry) > 3 {
 		return
 	}
 	var wg2 sync.WaitGroup
@@ -299,7 +299,7 @@ func SolveAll(reps []*FuncReport, dir string, timeoutS, seed, need, workers int)
 			defer wg2.Done()
 			for j := range ch2 {
 				first := j.o.Result
-				r := Solve(j.rep, j.o, dir, j.idx+200000, timeoutS*4, seed, need)
+				r := Solve(j.rep, j.o, dir, j.idx+200000, timeoutS*3, seed, need)
 				r.TimeS += first.TimeS
 				if r.Status == "unsat" {
 					r.Solver += "(retry)"
@@ -346,6 +346,9 @@ func symbolsOf(s string) []string {
 func coneOfInfluence(rep *FuncReport, o *Obligation) (keepG, keepH []bool) {
 	if o.Expect == "sat" || os.Getenv("GOVC_NO_COI") != "" {
 		return nil, nil
+	}
+	if len(symbolsOf(o.Goal.S)) == 0 {
+		return nil, nil // e.g. goal `false` (dead code): every hypothesis matters
 	}
 	if o.Focus {
 		return focusedHyps(rep, o)
